@@ -299,7 +299,8 @@ func (s *TxStore) insertMinedTxForImporting(tx mwdb.DBTransaction,
 		}
 		err = putBlockRecord(nsBlocks, block, &rec.Hash)
 	} else {
-		blkHash, err := readBlockHashFromValue(blockValue)
+		var blkHash wire.Hash
+		blkHash, err = readBlockHashFromValue(blockValue)
 		if err != nil {
 			return err
 		}
